@@ -47,6 +47,19 @@ pub fn gen_profile(r: &mut Rng, tier: &str, i: usize, stats: &mut BTreeMap<Strin
         braced_pct: *r.pick(&[0usize, 0, 10]),
     };
     let mut c = gen_chain(r, 0, &t, &cfg);
+    if profile == "sizes" {
+        // flat chains of variables with exactly n operands around the word boundaries of the operand
+        // tracker (the public evaluation path chooses the tracker), random operators of the table
+        let n = *r.pick(&[62usize, 63, 64, 65, 66, 67, 127, 128, 129, 130]);
+        let bins: Vec<usize> = t.iter().enumerate().filter(|(_, o)| o.bin.is_some()).map(|(k, _)| k).collect();
+        let name = |k: usize| format!("v{:03}", k % 7);
+        let mut ch = Chain::Single(Atom::Var(name(n - 1), true));
+        for k in (0..n - 1).rev() {
+            ch = Chain::Cons(Atom::Var(name(k), true), bins[r.below(bins.len())], Box::new(ch));
+        }
+        c = ch;
+    }
+    let big = big || profile == "sizes";
     // keep generated expressions below ~150 operators unless a long chain was asked for
     let mut tries = 0;
     while !big && c.n_ops() > 150 && tries < 20 {
@@ -97,6 +110,10 @@ pub fn run(f: &[&str]) -> String {
                 let r = e.eval(&v);
                 out.push_str(&format!("wo_nf={}\t", res_nf(&r, &t)));
                 out.push_str(&format!("wo={}\tvars={}\tnwo={}", res(r), strs(e.var_names()), e.verif_structure().0.len()));
+                // consuming evaluation of the UNFOLDED expression (literal nodes still carry unary operators)
+                let rc = e.eval_vec(v.clone());
+                let ri = e.eval_iter(v.clone().into_iter());
+                out.push_str(&format!("\twcons_nf={}\twiter_nf={}", res_nf(&rc, &t), res_nf(&ri, &t)));
             }
         }
         match F::parse(&text) {
